@@ -11,66 +11,72 @@ open Nv.C06 (figureShift idFields join LayoutOk tsWidth)
 theorem tie_facts : Nv.Gen.C07.facts = Facts.expected := by decide
 
 theorem tie_figureShift (nb : BitVec 8) (nal : Bool) :
-    Nv.Gen.C07.figureShift nb nal = figureShift nb nal := by
-  unfold Nv.Gen.C07.figureShift figureShift; cases nal <;> rfl
+    Nv.Gen.C07.figureShiftC nb nal = figureShift nb nal := by
+  unfold Nv.Gen.C07.figureShiftC Nv.Gen.C07.figureShift figureShift; cases nal <;> rfl
+
+theorem tie_figureShift' (nb : BitVec 8) (nal : Bool) :
+    Nv.Gen.C07.figureShift nb nal = figureShift nb nal := tie_figureShift nb nal
 
 theorem tie_idFields (id : BitVec 64) (nb : BitVec 8) (nal : Bool) :
-    Nv.Gen.C07.iDFields id nb nal = idFields id nb nal := by
-  unfold Nv.Gen.C07.iDFields idFields
-  rw [tie_figureShift]
+    Nv.Gen.C07.idFieldsC id nb nal = idFields id nb nal := by
+  unfold Nv.Gen.C07.idFieldsC Nv.Gen.C07.iDFields idFields
+  rw [tie_figureShift']
+
+theorem tie_idFields' (id : BitVec 64) (nb : BitVec 8) (nal : Bool) :
+    Nv.Gen.C07.iDFields id nb nal = idFields id nb nal := tie_idFields id nb nal
 
 theorem tie_idParse (id : BitVec 64) (nb : BitVec 8) (nal : Bool) (epoch : BitVec 64) :
-    Nv.Gen.C07.iDParse id nb nal epoch = idParse id nb nal epoch := by
-  unfold Nv.Gen.C07.iDParse idParse
-  rw [tie_idFields]
+    Nv.Gen.C07.idParseC id nb nal epoch = idParse id nb nal epoch := by
+  unfold Nv.Gen.C07.idParseC Nv.Gen.C07.iDParse idParse
+  rw [tie_idFields']
 
 theorem tie_timeIDRange (nb : BitVec 8) (epoch sec : BitVec 64) :
-    Nv.Gen.C07.timeIDRange nb epoch sec = timeIDRange nb epoch sec := by
-  unfold Nv.Gen.C07.timeIDRange timeIDRange lowMask; rfl
+    Nv.Gen.C07.timeIDRangeC nb epoch sec = timeIDRange nb epoch sec := by
+  unfold Nv.Gen.C07.timeIDRangeC Nv.Gen.C07.timeIDRange timeIDRange lowMask; rfl
 
 theorem tie_timeBetweenID (nb : BitVec 8) (epoch b e : BitVec 64) :
-    Nv.Gen.C07.timeBetweenID nb epoch b e = timeBetweenID nb epoch b e := by
-  unfold Nv.Gen.C07.timeBetweenID timeBetweenID lowMask; rfl
+    Nv.Gen.C07.timeBetweenIDC nb epoch b e = timeBetweenID nb epoch b e := by
+  unfold Nv.Gen.C07.timeBetweenIDC Nv.Gen.C07.timeBetweenID timeBetweenID lowMask; rfl
 
 /-! ### the property, on the regenerated kernels -/
 
 /-- split / join on the regenerated `IDFields` (the packing is `Generate`'s, see `Nv.C06.tie_hardGenerate`) -/
 theorem tie_id_split_join {nb : BitVec 8} (hl : LayoutOk nb) (nal : Bool) (id : BitVec 64) (h : 0 ≤ id.toInt) :
-    join nb nal (Nv.Gen.C07.iDFields id nb nal).1 (Nv.Gen.C07.iDFields id nb nal).2.1 (Nv.Gen.C07.iDFields id nb nal).2.2 = id := by
+    join nb nal (Nv.Gen.C07.idFieldsC id nb nal).1 (Nv.Gen.C07.idFieldsC id nb nal).2.1 (Nv.Gen.C07.idFieldsC id nb nal).2.2 = id := by
   rw [tie_idFields]; exact id_split_join hl nal id h
 
 theorem tie_id_join_split {nb : BitVec 8} (hl : LayoutOk nb) (nal : Bool) (t n s : BitVec 64)
     (ht : t.toNat < 2 ^ tsWidth nb) (hn : n.toNat < 2 ^ nb.toNat) (hs : s.toNat < 4096) :
-    Nv.Gen.C07.iDFields (join nb nal t n s) nb nal = (t, n, s) := by
+    Nv.Gen.C07.idFieldsC (join nb nal t n s) nb nal = (t, n, s) := by
   rw [tie_idFields]; exact (id_join_split hl nal t n s ht hn hs).1
 
 /-- order on the regenerated `IDFields` -/
 theorem tie_id_order_lex {nb : BitVec 8} (hl : LayoutOk nb) (nal : Bool) (a b : BitVec 64) (ha : 0 ≤ a.toInt) (hb : 0 ≤ b.toInt) :
     a.toInt < b.toInt ↔
-      ((Nv.Gen.C07.iDFields a nb nal).1.toInt < (Nv.Gen.C07.iDFields b nb nal).1.toInt ∨
-        ((Nv.Gen.C07.iDFields a nb nal).1 = (Nv.Gen.C07.iDFields b nb nal).1 ∧ (rest a nb).toNat < (rest b nb).toNat)) := by
+      ((Nv.Gen.C07.idFieldsC a nb nal).1.toInt < (Nv.Gen.C07.idFieldsC b nb nal).1.toInt ∨
+        ((Nv.Gen.C07.idFieldsC a nb nal).1 = (Nv.Gen.C07.idFieldsC b nb nal).1 ∧ (rest a nb).toNat < (rest b nb).toNat)) := by
   rw [tie_idFields, tie_idFields]; exact id_order_lex hl nal a b ha hb
 
 /-- `IDParse` on the regenerated kernels -/
 theorem tie_id_parse_fields (id : BitVec 64) (nb : BitVec 8) (nal : Bool) (epoch : BitVec 64) :
-    (Nv.Gen.C07.iDParse id nb nal epoch).1 - epoch = (Nv.Gen.C07.iDFields id nb nal).1 ∧
-    (Nv.Gen.C07.iDParse id nb nal epoch).2 = (Nv.Gen.C07.iDFields id nb nal).2 := by
+    (Nv.Gen.C07.idParseC id nb nal epoch).1 - epoch = (Nv.Gen.C07.idFieldsC id nb nal).1 ∧
+    (Nv.Gen.C07.idParseC id nb nal epoch).2 = (Nv.Gen.C07.idFieldsC id nb nal).2 := by
   rw [tie_idParse, tie_idFields]; exact id_parse_fields id nb nal epoch
 
 /-- the interval of the regenerated `TimeBetweenID` is exact -/
 theorem tie_range_exact {nb : BitVec 8} (hl : LayoutOk nb) (nal : Bool) (epoch b e id : BitVec 64)
     (hb : ((b * 1000#64) - epoch).toNat < 2 ^ tsWidth nb) (he : ((e * 1000#64) - epoch).toNat < 2 ^ tsWidth nb)
     (hid : 0 ≤ id.toInt) :
-    ((Nv.Gen.C07.timeBetweenID nb epoch b e).1.toInt ≤ id.toInt ∧ id.toInt ≤ (Nv.Gen.C07.timeBetweenID nb epoch b e).2.toInt) ↔
-      (((b * 1000#64) - epoch).toInt ≤ (Nv.Gen.C07.iDFields id nb nal).1.toInt ∧
-        (Nv.Gen.C07.iDFields id nb nal).1.toInt ≤ ((e * 1000#64) - epoch).toInt) := by
+    ((Nv.Gen.C07.timeBetweenIDC nb epoch b e).1.toInt ≤ id.toInt ∧ id.toInt ≤ (Nv.Gen.C07.timeBetweenIDC nb epoch b e).2.toInt) ↔
+      (((b * 1000#64) - epoch).toInt ≤ (Nv.Gen.C07.idFieldsC id nb nal).1.toInt ∧
+        (Nv.Gen.C07.idFieldsC id nb nal).1.toInt ≤ ((e * 1000#64) - epoch).toInt) := by
   rw [tie_timeBetweenID, tie_idFields]; exact range_exact hl nal epoch b e id hb he hid
 
 /-- … and so is the one of the regenerated `TimeIDRange` (one second) -/
 theorem tie_range_exact_one {nb : BitVec 8} (hl : LayoutOk nb) (nal : Bool) (epoch sec id : BitVec 64)
     (hs : ((sec * 1000#64) - epoch).toNat < 2 ^ tsWidth nb) (hid : 0 ≤ id.toInt) :
-    ((Nv.Gen.C07.timeIDRange nb epoch sec).1.toInt ≤ id.toInt ∧ id.toInt ≤ (Nv.Gen.C07.timeIDRange nb epoch sec).2.toInt) ↔
-      (Nv.Gen.C07.iDFields id nb nal).1 = (sec * 1000#64) - epoch := by
+    ((Nv.Gen.C07.timeIDRangeC nb epoch sec).1.toInt ≤ id.toInt ∧ id.toInt ≤ (Nv.Gen.C07.timeIDRangeC nb epoch sec).2.toInt) ↔
+      (Nv.Gen.C07.idFieldsC id nb nal).1 = (sec * 1000#64) - epoch := by
   rw [tie_timeIDRange, time_id_range_eq, tie_idFields, range_exact hl nal epoch sec sec id hs hs hid, ← BitVec.toInt_inj]
   omega
 
